@@ -91,8 +91,8 @@ def run(res):
         # non-vacuity, D20: with the setter as written at 05622c8 (dispatches the raw value) TLC finds the violation
         c, ov = consts(['p'], [], vecs, True, d20=False)
         res.model_check('TransformMC', 'c20_asimpl_rotation', c, invariants=INVARIANTS, properties=PROPERTIES,
-                        overrides=ov, expect_violation=('NotifiedValueIsReadBack', 'DeliveryReadsPayload'), count=False,
-                        workers=4)
+                        overrides=ov, count=False, workers=4,
+                        expect_violation=('NotifiedValueIsReadBack', 'DeliveryReadsPayload', 'LastNotificationIsReadBack'))
 
     clamp3d = dict(rot='Rot_Few', subs='Subs_Both', ctor='Ctor_None', reg='Reg_Full', beh='Beh_Clamp')
 
@@ -101,7 +101,8 @@ def run(res):
         c, ov = consts([], ['q'], vecs, False, store_first=False, **clamp3d)
         res.model_check('TransformMC', 'c20_notify_before_store', c, invariants=INVARIANTS, properties=PROPERTIES,
                         overrides=ov, count=False, workers=2,
-                        expect_violation=('DeliveryReadsPayload', 'StoredIsLastAssigned', 'LastNotificationIsReadBack'))
+                        expect_violation=('DeliveryReadsPayload', 'StoredIsLastAssigned', 'LastNotificationIsReadBack',
+                                          'NotifiedValueIsReadBack', 'StoresAssigned'))
         # ... and "what survives is the most recent assignment" alone (a clamp overwritten by the outer store)
         res.model_check('TransformMC', 'c20_notify_before_store_final', c, invariants=['StoredIsLastAssigned'],
                         overrides=ov, count=False, workers=2, expect_violation='StoredIsLastAssigned')
